@@ -27,7 +27,9 @@ claim("C01", "type-specialised SCCP over every pair of set representations (disp
       "SymmetricDifference (13x13 representation pairs), PowerSet, With/Without/Has (13x19) definitely panics, and the panicking "
       "UnionSet.unionSetSubsetBucket is unreachable; (R01b) element-type bucket == subset bucket of the set type its builder constructs, sets "
       "route to the generic bucket; (R01c) adding a foreign element to String/Bytes/Array/Dict always goes through toUnionSetWithItem (never "
-      "dropped); (R01d) stored rows of two relations are only combined under explicit column projectors; (R02f, shared with C02) the derived count of a slot builder counts distinct slots; (R03a, shared with C03) no operator writes "
+      "dropped); (R01d) stored rows of two relations are only combined under explicit column projectors; (R02f, shared with C02) the derived count of a slot builder counts distinct slots; (R01e) Array.count is never used as a position in "
+      "Array.values; (R04d) raw rows stand in for projected rows only under isIdentity(); (R07e) no union by flattening member sets through one "
+      "set builder; (R03a, shared with C03) no operator writes "
       "into storage an operand or an earlier result still reaches (a result that overwrites its sibling makes a later union/difference wrong). Member arithmetic inside one "
       "representation (Count, Where, Has on colliding keys) is value-level and not decided.", NOTE, "DESIGN.md §3 C01")
 
@@ -44,11 +46,11 @@ claim("C19", "flag-fixed CFG reachability (dry-run purity and validation complet
       "contents ends in an error for unmatched kinds; (R19d) a rejecting test on the joined path dominates every use of it; (R19e) no error result in "
       "out.go is dropped; (R19f) no description error and no validating callee is reachable only when the flag is false without a dry-side twin; (R19g) where the dry pass "
       "validates against an empty scratch filesystem, the real pass's call is dominated by RemoveAll of that path; (R19h) a deferred closure assigns "
-      "the named error result only while it is still nil. "
+      "the named error result only while it is still nil; (R19i) whether an ifExists entry is validated does not depend on what exists on disk. "
       "Byte contents, ifExists merge semantics and fault injection are not decided.", NOTE, "DESIGN.md §3 C19")
 
 claim("C20", "table extraction over go/ssa (outcome switch, runFailed dependence), TS-SCCP of isLiteralTrue/False over all value types, error-propagation and control-dependence checks from leaf to exit status",
-      "Decides the decision tables between a leaf and the exit status: (R20a) every Outcome constant is counted in its own counter, runFailed depends "
+      "Decides the decision tables between a leaf and the exit status: (R20a) every result's own Outcome is counted (not an outcome aggregated through a map), every Outcome constant in its own counter, runFailed depends "
       "on the counter of every non-passing outcome RunExpr assigns, Report errors exactly when runFailed; (R20b) only a TrueSet can classify as "
       "passed (for all values, by type), Passed is stored only under that test, is not the zero Outcome, and each leaf appends one result; (R20c) "
       "errors of getTestFiles/ReadFile/Compile/RunExpr/Report reach RunTests' result, doTest and os.Exit(1); (R20d) ForeachLeaf recurses for exactly "
@@ -91,7 +93,7 @@ claim("C10", "grammar/table agreement, inhabited-type analysis of unchecked asse
 
 claim("C15", "dominance of recorders over readers, flag-fixed reachability of host effects along all call paths from Compile, sibling agreement of archive-location derivations",
       "Decides structural necessary conditions of bundle = sources: (R15a) every import read is either bundle-run-only or dominated by its recorder "
-      "with the error propagated; (R15d) the module component of the entries SetupBundle writes is the very value it stores in config.mainRoot; (R15e) no location handed to a recorder depends on an HTTP response or other environment read; (R15b) no host access (network, process, host files, cwd) is reachable from Compile while isRunningBundle is true, "
+      "with the error propagated; (R15d) the module component of the entries SetupBundle writes is the very value it stores in config.mainRoot; (R15f) bundleModule returns the module context on every recording path; (R15e) no location handed to a recorder depends on an HTTP response or other environment read; (R15b) no host access (network, process, host files, cwd) is reachable from Compile while isRunningBundle is true, "
       "along every call path; (R15c) every recorder derives archive locations through the same mapping (bundleConfig.mainRoot/absRootPath or "
       "createModulePath) that the runtime re-derives. That the computed archive path equals the runtime path for every layout is string algebra "
       "and not decided.", NOTE, "DESIGN.md §3 C15")
@@ -117,14 +119,15 @@ claim("C04", "symbolic evaluation of the join operators' combine/partitionNames 
       "(R04a: 8 operators x 8 worlds, isSubset guards evaluated per world, outputs disjoint) and that the positional join's 3-bit mode switch "
       "handles all 8 modes (R04b). R01d (rows of two relations only meet under projectors) and R03a (no join writes a heading or row store an "
       "operand still reaches) run under this property too; (R04c) no relational helper that takes a per-element function has a return path that builds "
-      "its result from the input without involving that function (nestWithFunc shared by Nest and SingleAttrNest). Row contents, column permutations "
+      "its result from the input without involving that function (nestWithFunc shared by Nest and SingleAttrNest); (R04d) a relation's stored rows are handed out in place of their projection only "
+      "under projector.isIdentity(). Row contents, column permutations "
       "inside the positional joins, nest/unnest inversion and rank values are value-level and not decided.", NOTE, "DESIGN.md §3 C04")
 
 claim("C12", "table extraction and agreement (printer escape table vs reader escape switch, printer identifier pattern vs grammar IDENT), transitive field-read sets of Equal vs Format",
       "Decides codec agreement at the table level: (R12a) every backslash-letter the printer emits is mapped back to the same character by the "
       "reader, and the reader handles \\\\, both quotes and \\x; (R12b) for all 18 value types, every field Equal reads is read by Format/String "
       "(Bytes.offset is not: known finding); (R12c) names are printed unquoted only when they match the grammar's IDENT (pattern equality; no unicode "
-      "classification); (R12d) the pattern by which Bytes.Format selects the quoted-text form accepts ASCII only (the text is written by the rune-wise "
+      "classification); (R13c) no unchecked float->integer conversion in the number printer; (R12d) the pattern by which Bytes.Format selects the quoted-text form accepts ASCII only (the text is written by the rune-wise "
       "escaper); (R07b, R06f) printers emit members in a sorted order. The escape reader's index arithmetic (\\xNN off-by-one), number formatting and nesting are value-level and not decided.", NOTE, "DESIGN.md §3 C12")
 
 claim("C13", "TS-SCCP of the encoder under each (strict flag, value type) context with data-dependence of the result on the value; shape descriptors of the wire-format switch",
@@ -158,7 +161,7 @@ claim("C07", "effect analysis of printing paths (unordered sources must be order
       "asArray/asString/asBytes overwrite colliding slots in enumeration order (genuine, known findings); (R06d) every sort comparator decides "
       "through Value.Less; (R06f) the tuple name-order cache is only ever stored sorted; (R02e) equal relations hash equally whatever their column "
       "layout (otherwise set de-duplication depends on the per-process seed); (R07d) no Less method of a value type reaches a Hash call (hashes are "
-      "seeded per process). A full order-sensitivity classification of all "
+      "seeded per process); (R07e) member sets are not merged by feeding their elements into one set builder (index collisions, last writer wins). A full order-sensitivity classification of all "
       "120 unordered loops, determinism of dependencies and of float reductions are not decided.", NOTE, "DESIGN.md §3 C07")
 
 for pid in []:
